@@ -316,6 +316,18 @@ def sep1(ctx):
                 typed = [(e, tr) for (e, op, tr, gg) in S.facts_at(b) if "coltype" in e]
                 ctx.check(not typed, R, "the separator check covers every column type", "", "the enumeration-value check in create_table is only reached for some column types (%s): "
                           "other columns still get a ';'-joined _Validation.Set cell and reopen with different values" % typed, g.loc(t["sp"]), fn=f.name, key=R + "|all-types")
+    # empty values: [""] joins to "" (stored as a null cell, reopening without an enumeration), ["a",""] to "a;" ...
+    empty_guard = False
+    for g in prog.unit(f):
+        S = Sym(prog, g)
+        for b, n, args, t in symcalls(prog, g, S):
+            if n.endswith("String::is_empty") or n.endswith("<impl str>::is_empty"):
+                # the test is on an enumeration value: same operand as the separator test, or an element of enum_values
+                if any(nn.endswith("<impl str>::contains") and ("c:59" in aa[1] or "s:';'" in aa[1]) and (aa[0].lstrip("&*") in args[0] or args[0].lstrip("&*") in aa[0])
+                       for bb, nn, aa, tt in symcalls(prog, g, S)) or "enum_values" in args[0]:
+                    empty_guard = True
+    ctx.check(empty_guard, R, "empty enumeration values are refused", "", "create_table accepts an empty enumeration value: [\"\"] is written as an empty (null) _Validation.Set cell and the "
+              "column reopens without its enumeration", f.loc(), fn=f.name, key=R + "|empty")
     errs = error_sites(prog, f)
     ctx.check(guard, R, "enumeration values containing ';' are refused", "", "create_table accepts enumeration values containing ';' (or empty): [\"a;b\",\"c\"] is written as \"a;b;c\" and "
               "reopens as three values", f.loc(), fn=f.name, key=R + "|guard")
@@ -485,3 +497,83 @@ def codec4(ctx):
             ctx.check(ok, R, "%s: Table::new(.., %s)" % (short(f.name), v[:60]), "", "%s builds a Table whose reference width is %s, not the pool's" % (short(f.name), v[:80]),
                       f.loc(t["sp"]), fn=f.name, key="%s|%s" % (R, short(f.name)))
     ctx.floor(R, "Table::new call sites", n, 8)
+
+
+CLSID_REF = {"Installer": "000C1084-0000-0000-C000-000000000046", "Patch": "000C1086-0000-0000-C000-000000000046", "Transform": "000C1082-0000-0000-C000-000000000046"}
+
+
+def table_clsid(ctx, rule="TABLE-CLSID"):
+    """package type <-> root class id (C01, C02)"""
+    prog = ctx.prog
+    ctx.rule(rule, "PackageType::clsid maps Installer/Patch/Transform to the Windows Installer class ids {000C1084, 000C1086, 000C1082}-0000-0000-C000-000000000046 and "
+                   "PackageType::from_clsid returns variant V exactly on the edge where the given id equals V.clsid(): an independently encoded patch is reported as a patch, and a "
+                   "created transform carries the transform class id")
+    f = prog.fn(PKG + "PackageType::clsid")
+    tab, discr = tables.switch_table(prog, f)
+    vs = tables.enum_variants(prog, "msi", "internal::package::PackageType")
+    got = {}
+    for d, name in (vs or {}).items():
+        m = re.search(r"s:'([0-9A-Fa-f-]{36})'", str((tab or {}).get(d)))
+        got[name] = m.group(1).upper() if m else None
+    ctx.check(discr == "discr(*p1)" and got == CLSID_REF, rule, "clsid() table", str(got), "PackageType::clsid maps %s, the format assigns %s" % (got, CLSID_REF), f.loc(), fn=f.name, key=rule + "|clsid")
+    g = prog.fn(PKG + "PackageType::from_clsid")
+    S = Sym(prog, g)
+    pairs = {}
+    for bl in g.blocks:
+        if bl["cleanup"]:
+            continue
+        for s in bl["stmts"]:
+            r = s["rhs"]
+            v = S.val(r["ops"][0]) if r.get("ops") else ""
+            m = re.search(r"PackageType::(\w+)\{\}", v)
+            if s["lhs"]["l"] == 0 and m and r["rv"] == "agg" and r.get("variant") == "Some":
+                fs = S.bool_facts_at(bl["id"])
+                last = fs[-1] if fs else ("", None, 0)
+                mm = re.search(r"PartialEq>::eq\(&\*p1,&call@(\d+):internal::package::PackageType::clsid", last[0])
+                if mm and last[1] is True:
+                    arg = S.val(g.blocks[int(mm.group(1))]["term"]["args"][0])
+                    am = re.search(r"PackageType::(\w+)\{\}", arg)
+                    pairs[m.group(1)] = am.group(1) if am else None
+                else:
+                    pairs[m.group(1)] = None
+    if not pairs:
+        # table-driven spelling: [Installer, Patch, Transform].into_iter().find(|t| t.clsid() == *clsid)
+        from ..lib import lifted_closures
+        for L in lifted_closures(prog, g, S):
+            if any(cname(prog, t).endswith("PackageType::clsid") for b, t in L.fn.calls()) and L.param and L.param.startswith("elem("):
+                el = set(re.findall(r"PackageType::(\w+)\{\}", L.param + " ".join(S.val(a) for b, t in g.calls() for a in t["args"])))
+                self_cmp = any(cname(prog, t).endswith("PackageType::clsid") and "p2" in L.SC.val(t["args"][0]) for b, t in L.fn.calls())
+                if self_cmp:
+                    pairs = {n: n for n in el}
+    ctx.check(pairs == {n: n for n in CLSID_REF}, rule, "from_clsid returns the variant whose class id matched", str(pairs),
+              "PackageType::from_clsid pairs (returned variant: compared variant) %s; each variant must be returned exactly when the id equals its own clsid()" % pairs, g.loc(), fn=g.name, key=rule + "|from")
+
+
+def builder_pass(ctx, rule="BUILDER-PASS"):
+    """the builder's metadata reaches the Column unchanged, for every column type (C06)"""
+    prog = ctx.prog
+    ctx.rule(rule, "ColumnBuilder::with_type (create side) and ColumnBuilder::with_bitfield (open side) move name, value_range, foreign_key, category and enum_values from the "
+                   "builder into the Column as they are, on every path and for every column type: what _Validation said about a column is what the reopened column reports")
+    adt = prog.adts.get("msi::internal::column::Column")
+    if not adt:
+        ctx.anchor_missing(rule, "struct Column")
+        return
+    fields = [x[0] for x in adt["variants"][0]["fields"]]
+    want = ["name", "value_range", "foreign_key", "category", "enum_values"]
+    n = 0
+    for fname in (COL + "ColumnBuilder::with_type", COL + "ColumnBuilder::with_bitfield"):
+        f = prog.fn(fname)
+        S = Sym(prog, f)
+        aggs = [s for bl in f.blocks if not bl["cleanup"] for s in bl["stmts"] if s["rhs"]["rv"] == "agg" and (s["rhs"].get("adt") or "").endswith("column::Column")]
+        if not ctx.check(len(aggs) == 1, rule, "%s builds one Column" % short(fname), "", "%s builds %d Column values" % (short(fname), len(aggs)), f.loc(), fn=f.name, key="%s|%s|one" % (rule, short(fname))):
+            continue
+        ops = [S.val(o) for o in aggs[0]["rhs"]["ops"]]
+        for fld in want:
+            if fld not in fields:
+                continue
+            n += 1
+            got = ops[fields.index(fld)] if fields.index(fld) < len(ops) else None
+            ctx.check(got is not None and got.lstrip("&*") == "p1." + fld, rule, "%s passes %s through" % (short(fname), fld), str(got),
+                      "%s stores %s as Column.%s instead of the builder's own %s: the attribute is changed or dropped for some columns (for example by column type) on the way from the "
+                      "catalog to the Column" % (short(fname), got, fld, fld), f.loc(), fn=f.name, key="%s|%s|%s" % (rule, short(fname), fld))
+    ctx.floor(rule, "metadata fields passed through", n, 10)
